@@ -1,8 +1,8 @@
 (* C19 part B - the final statements, in the user's terms, derived from the run invariants.
    us = the user's objective values f(x) in call order (identity of a point = index of its call). *)
 From Coq Require Import List ZArith Bool Arith Lia.
-From SV Require Import C19.B_Common C19.B_DE C19.B_PSO C19.B_NM C19.B_Bayes C19.B_Flow
-     C19.B_Spec C19.B_ProofsCommon C19.B_ProofsDE C19.B_ProofsPSO C19.B_ProofsNM C19.B_ProofsBayes C19.B_ProofsFlow.
+From SV Require Import C19.B_Common C19.B_DE C19.B_PSO C19.B_NM C19.B_Bayes C19.B_Flow C19.B_Powell
+     C19.B_Spec C19.B_ProofsCommon C19.B_ProofsDE C19.B_ProofsPSO C19.B_ProofsNM C19.B_ProofsBayes C19.B_ProofsFlow C19.B_ProofsPowell.
 Import ListNotations.
 Open Scope Z_scope.
 
@@ -107,11 +107,11 @@ Lemma bo_mirror ni mi cb iv us :
 Proof. unfold bo_run. rewrite bo_run_mirror. apply neg_out_fst. Qed.
 
 (* ---------------- powell / bfgs / lbfgs: objective of exactly the returned point *)
-Lemma powell_objective_is_f n mi lens conv moved cb iv us r :
-  powell_run n mi lens conv moved cb iv us = Some r -> is_f us r.
+Lemma powell_objective_is_f m n mi ls conv moved cb iv us r :
+  powell_run m n mi ls conv moved cb iv us = Some r -> is_f us r.
 Proof.
   intros H. destruct (run_of_st _ _ H) as [st Hs].
-  destruct (powell_run_ok _ _ _ _ _ _ _ _ _ _ Hs) as (_ & H2 & _). exact H2.
+  destruct (powell_run_ok _ _ _ _ _ _ _ _ _ _ _ Hs) as (_ & H2 & _). exact H2.
 Qed.
 Lemma bfgs_objective_is_f mi conv bt cb iv us r : bfgs_run mi conv bt cb iv us = Some r -> is_f us r.
 Proof.
